@@ -12,6 +12,9 @@ pub enum Front {
     RawMemoryInsert,
     /// raw::Builder fed through BOTH entry points: add(k) for entries whose value is 0, insert(k, v) for the others
     RawMixed,
+    /// raw::Builder fed through ALL its entry points in one session: runs of entries go through extend_iter / extend_stream,
+    /// single entries through add (value 0) or insert
+    RawMixedBulk,
     RawAdd,
     RawNewVec,
     RawExtendIter,
@@ -29,9 +32,10 @@ pub enum Front {
     SetFromIter,
 }
 
-pub const MAP_FRONTS: [Front; 11] = [
+pub const MAP_FRONTS: [Front; 12] = [
     Front::RawShortSink,
     Front::RawMixed,
+    Front::RawMixedBulk,
     Front::RawMemoryInsert,
     Front::RawNewVec,
     Front::RawExtendIter,
@@ -134,6 +138,32 @@ pub fn build(front: Front, kv: &Kv) -> Result<Vec<u8>, String> {
                 } else {
                     e(b.insert(k, *v))?;
                 }
+            }
+            e(b.into_inner())
+        }
+        Front::RawMixedBulk => {
+            let mut b = Builder::memory();
+            let mut i = 0;
+            let mut turn = kv.len();
+            while i < kv.len() {
+                turn += 1;
+                // runs of 1..3 entries; which entry point takes the run rotates with the position
+                let n = (1 + (turn + i) % 3).min(kv.len() - i);
+                let chunk = &kv[i..i + n];
+                match turn % 4 {
+                    0 => e(b.extend_iter(chunk.iter().map(|(k, v)| (k.clone(), Output::new(*v)))))?,
+                    1 => e(b.extend_stream(VecStream::new(chunk)))?,
+                    _ => {
+                        for (k, v) in chunk {
+                            if *v == 0 {
+                                e(b.add(k))?;
+                            } else {
+                                e(b.insert(k, *v))?;
+                            }
+                        }
+                    }
+                }
+                i += n;
             }
             e(b.into_inner())
         }
